@@ -175,7 +175,7 @@ def _service_harness(keep_alive=False):
     sc.search_space.root.add_float_param('x', 0.0, 1.0)
     sc.metric_information.append(svz.MetricInformation(name='m', goal=svz.ObjectiveMetricGoal.MAXIMIZE))
     st = svc.CreateStudy(vs.CreateStudyRequest(parent='owners/o', study=study_pb2.Study(display_name='s', study_spec=sc.to_proto())))
-    return svc, st.name, log
+    return svc, st.name, log, Rec
 
 
 def _run_history(ops, keep_alive=False):
@@ -183,7 +183,7 @@ def _run_history(ops, keep_alive=False):
     Never deletes a completed trial (that is the class of finding 13).  Oracle, from the property text: every Designer.update gets
     exactly the ACTIVE trials and exactly the COMPLETED trials not given before; at the end every completed trial was given once."""
     from vizier._src.service import study_pb2, vizier_service_pb2 as vs
-    svc, name, log = _service_harness(keep_alive)
+    svc, name, log, Rec = _service_harness(keep_alive)
     delivered = {}
     violations, trace = [], []
     nclient = [0]
@@ -213,6 +213,10 @@ def _run_history(ops, keep_alive=False):
     for o in ops:
         if o[0] == 'suggest':
             suggest(o[1])
+        elif o[0] == 'suggest0':          # a request on which the designer proposes nothing
+            Rec.zero[0] = 1
+            suggest(1)
+            Rec.zero[0] = 0
         else:
             comp, act = listing()
             if not act:
@@ -245,6 +249,8 @@ def cmd_history_search(p):
         [['suggest', 2], ['complete', 0, False], ['suggest', 1], ['complete', 0, True], ['suggest', 1]],                          # infeasible completion
         [['suggest', 3], ['complete', 2, True], ['complete', 0, False], ['suggest', 2], ['complete', 0, True], ['suggest', 1]],
         [['suggest', 1], ['delete_active', 0], ['suggest', 2], ['complete', 1, True], ['suggest', 1], ['complete', 0, True]],      # id of a deleted ACTIVE trial re-used
+        [['suggest', 2], ['complete', 0, True], ['complete', 0, True], ['suggest0'], ['suggest', 1], ['suggest', 1]],              # a request with zero suggestions
+        [['suggest', 1], ['complete', 0, True], ['suggest0'], ['suggest0'], ['suggest', 2], ['complete', 0, False], ['suggest0'], ['suggest', 1]],
     ]
     rnd = random.Random(int(p.get('seed', 12)))
     hist = list(scripted)
@@ -252,7 +258,9 @@ def cmd_history_search(p):
         h = []
         for _ in range(rnd.randint(3, int(p.get('max_len', 8)))):
             r = rnd.random()
-            if r < 0.4:
+            if r < 0.08:
+                h.append(['suggest0'])
+            elif r < 0.4:
                 h.append(['suggest', rnd.randint(1, 3)])
             elif r < 0.85:
                 h.append(['complete', rnd.randint(0, 3), rnd.random() < 0.7])
